@@ -281,6 +281,15 @@ class JoinModel:
                 return (s[0], lin_add(s[1], off), L)
         return None
 
+    def _bound_name(self, value_node) -> Optional[str]:
+        """the local name a statement `name = <value_node>` of this function binds"""
+        for n in ast.walk(self.f.node):
+            if isinstance(n, ast.Assign) and n.value is value_node and len(n.targets) == 1 and isinstance(n.targets[0], ast.Name):
+                return n.targets[0].id
+            if isinstance(n, ast.AnnAssign) and n.value is value_node and isinstance(n.target, ast.Name):
+                return n.target.id
+        return None
+
     # ------------------------------------------------------------------ model construction
     def _build(self) -> None:
         it = self.it
@@ -298,11 +307,20 @@ class JoinModel:
         # result buffers ------------------------------------------------------------------
         self.RD: Optional[Term] = None
         self.T: Optional[Lin] = None
+        self.rebinds: List[Tuple[Event, str]] = []
         for e in it.events:
             if e.kind == "elem" and e.value[0] == "obj" and it.objs[e.value[1]].kind == "list" \
                     and isinstance(it.objs[e.value[1]].node, ast.List) and not it.objs[e.value[1]].init \
                     and it.objs[e.term[1]].kind == "listcomp":
                 if self.RD is not None:
+                    if e.term == self.RD:
+                        continue
+                    # the variable holding the filled buffers bound again to fresh empty ones: what was emitted so far is dropped
+                    # (for the rules to report); any other second set of buffers is a shape this model does not know
+                    t1, t2 = self._bound_name(it.objs[self.RD[1]].node), self._bound_name(it.objs[e.term[1]].node)
+                    if t1 is not None and t1 == t2:
+                        self.rebinds.append((e, t2))
+                        continue
                     self._err("more than one list of empty result buffers")
                 self.RD, self.RD_ev = e.term, e
         if self.RD is None:
